@@ -327,6 +327,36 @@ fn huge_window(cfg: &Cfg) -> JobOut {
 fn data_items(out: &mut JobOut) {
     let lat = [f64::NEG_INFINITY, -2.0, -1.0, -0.0, 0.0, 1.0, 2.0, 3.0, f64::INFINITY, f64::NAN];
     let dummy = Cfg::p0(crate::subjects::Kind::Obv);
+    // a self-describing TEXT format as well (serde_json with exact float parsing): finite items over computed,
+    // off-grid values - a serializer may branch on Serializer::is_human_readable()
+    {
+        let vals = [2.5e-9, 0.1 + 0.2, 1.0, 1.0000000001, 7.0, 100.0 / 3.0, 12345.678912345678];
+        for i in 0..vals.len() {
+            for j in i..vals.len() {
+                for k in i..vals.len() {
+                    for m in j.max(k)..vals.len() {
+                        for &v in &vals {
+                            let (l, o, c, h) = (vals[i], vals[j], vals[k], vals[m]);
+                            let it = match DataItem::builder().open(o).high(h).low(l).close(c).volume(v).build() {
+                                Ok(it) => it,
+                                Err(_) => continue,
+                            };
+                            let back: Result<DataItem, String> = serde_json::to_string(&it).map_err(|e| e.to_string()).and_then(|t| serde_json::from_str(&t).map_err(|e| e.to_string()));
+                            let ok = match &back {
+                                Ok(b) => *b == it && b.open().to_bits() == o.to_bits() && b.high().to_bits() == h.to_bits() && b.low().to_bits() == l.to_bits() && b.close().to_bits() == c.to_bits() && b.volume().to_bits() == v.to_bits(),
+                                Err(_) => false,
+                            };
+                            out.stats.evaluations += 1;
+                            if !ok {
+                                out.fail(Violation::new(PROP, &dummy, &[Op::B(Bar { o, h, l, c, v })], "dataitem-roundtrip").obs(format!("{:?}", back)).exp(format!("{:?}", it)).det("DataItem does not round-trip through JSON (serde_json, exact float parsing) to an equal value".into()));
+                                return;
+                            }
+                        }
+                    }
+                }
+            }
+        }
+    }
     let mut built = 0u64;
     for &o in &lat {
         for &h in &lat {
@@ -512,7 +542,7 @@ pub fn run(ctx: &Ctx) -> CheckResult {
     res.extra.insert("checkpoints".into(), json!(rows));
     res.extra.insert("distinct_checkpoint_states_total".into(), json!(total_cp));
     res.rule = "case = (configuration, checkpoint history, continuation): the real indicator after the history is serialized with bincode and deserialized once and twice; every continuation of n+2 inputs over 3 values is fed to the original (rebuilt by replay) and both restored copies, outputs compared at 1e-12 relative; checkpoints de-duplicated by concrete state; non-trivial = checkpoint history at least as long as the window".into();
-    res.bounds = format!("all 22 indicators, periods 1..4 (tuples over {{1,2,3}}), every history in seq(3 (thorough: 4) values + NaN + a 3.3e7 spike + reset, {dp}) as checkpoint, all 3^(n+2) continuations over 2 values + reset; long-history family: every prefix length 0..=3n+3 of 2 default streams (with resets and a NaN) as checkpoint for periods up to 64/257 (defaults 9,10,14,20,22,12/26/9 included), 3 continuations of n+2 inputs; parameters / Display across a round trip for every period 1..=2000 in every position, and for every period up to 1100 / 2000 (300 / 700 for the O(n)-per-step indicators; powers of two +-1 beyond) a round trip after a full window plus one input followed by 24 more inputs; period 70000 on a 70010-step stream with checkpoints at 1000, 65535..65537 and 69999..70001; all 10^5 lattice DataItems that build() accepts");
+    res.bounds = format!("all 22 indicators, periods 1..4 (tuples over {{1,2,3}}), every history in seq(3 (thorough: 4) values + NaN + a 3.3e7 spike + reset, {dp}) as checkpoint, all 3^(n+2) continuations over 2 values + reset; long-history family: every prefix length 0..=3n+3 of 2 default streams (with resets and a NaN) as checkpoint for periods up to 64/257 (defaults 9,10,14,20,22,12/26/9 included), 3 continuations of n+2 inputs; parameters / Display across a round trip for every period 1..=2000 in every position, and for every period up to 1100 / 2000 (300 / 700 for the O(n)-per-step indicators; powers of two +-1 beyond) a round trip after a full window plus one input followed by 24 more inputs; period 70000 on a 70010-step stream with checkpoints at 1000, 65535..65537 and 69999..70001; all 10^5 lattice DataItems that build() accepts through bincode, and ~1500 finite items over computed off-grid values through JSON");
     res.assumptions = vec!["bincode 1.3 is the serialization format exercised (the property names it)".into()];
     res
 }
